@@ -67,6 +67,8 @@ def build(rng, facts, name):
             if a != ",".join(impl[j] for j in js): return "batch query %s differs from the single queries %s" % (a, [impl[j] for j in js])
             return None
         b.emit("qs k " + " ".join(f2h(q) for q in qs), mono)
+        perm = list(range(len(qs))); rng.shuffle(perm)          # the batch query answers entry by entry, whatever the order of the list
+        b.emit("qs k " + " ".join(f2h(qs[i]) for i in perm), lambda a, env, impl, perm=perm: None if a == ",".join(impl[js[i]] for i in perm) else "batch query on a shuffled list %s differs from the single queries" % a)
         def items(a, env, impl):
             its = [x.split(":") for x in a[len("items="):].split(",")] if a != "items=" else []
             ws = [parse_F(w) for _, w in its]
